@@ -17,14 +17,38 @@ observations.
 import concurrent.futures
 import json
 import os
+import re
 
 import vlib
 
 CFG = {"nv": 4, "powers": [[1, 1, 1, 1], [2, 2, 2, 2]], "maxVal": 2, "nValid": 1, "maxRound": 1,
        "corr": [2], "byz": [1, 3, 4], "h0": 1, "propShift": 0}
 SIMS = [("Driver_sim.cfg", 0), ("Driver_sim_np.cfg", 1), ("Driver_sim_r1.cfg", 3)]   # (cfg, PropShift)
+# long-lived process: 255 heights decided before the behaviour starts (walstore cleanup inside it)
+LONG = ("Driver_sim_long.cfg", dict(CFG, h0=256, propShift=3, powers=[[2, 2, 2, 2], [1, 1, 1, 1]]))
+H6_KEY = "driver-replay:proposer-revalue"
 ENGINE = "driver"
 H6 = ("NoConflictProposal", "NoConflictSent", "RecoveredState")
+
+
+def _selftest(ctx, path):
+    """Binding self-test: the same stream with two adjacent effects swapped must be rejected."""
+    with open(path) as f:
+        lines = f.read().splitlines()[:300]
+    for i in range(len(lines) - 1):
+        a, b = json.loads(lines[i]), json.loads(lines[i + 1])
+        if a.get("e") == "flush" and b.get("e") == "bcast":        # broadcast BEFORE the flush
+            lines[i], lines[i + 1] = lines[i + 1], lines[i]
+            bad = os.path.join(ctx.scratch, "conc_selftest.ndjson")
+            with open(bad, "w") as f:
+                f.write("\n".join(lines[:i + 4]) + "\n")
+            ok, res = ctx.tlc_trace("consensus", "MCDriverTrace.tla", "Driver_trace.cfg", bad, timeout=600)
+            ctx.tlc_runs[-1]["label"] = "selftest(swapped flush/broadcast must be rejected)"
+            if ok:
+                raise vlib.Broken("binding self-test failed: TLC accepted a stream with a broadcast before its flush")
+            ctx.coverage["conc_trace_selftest"] = "swapped flush/bcast at line %d rejected" % (i + 1)
+            return
+    raise vlib.Broken("binding self-test: no flush;bcast pair in the first 300 trace lines")
 
 
 def run(ctx):
@@ -39,6 +63,15 @@ def run(ctx):
     thorough = not ctx.quick()
     only = os.environ.get("VERIF_C13_ONLY", "")     # development aid, never set by registered commands
     tier = "thorough" if thorough else "quick"
+    # The model the behaviours are generated from follows known_findings.json, never the tree under test:
+    # H6 listed `known` -> the faithful model (own proposal not logged); `fixed` / unlisted -> the repaired one.
+    h6_known = any(k["status"] == "known" and vlib.key_matches(k["key"], H6_KEY) for k in ctx.known)
+
+    def sim_files(cfg):
+        if h6_known:
+            return None
+        with open(os.path.join(vlib.VERIF, "spec", "consensus", cfg)) as f:
+            return {cfg: f.read().replace("LogOwnProposal = FALSE", "LogOwnProposal = TRUE")}
 
     if not only or "tlc" in only:
         r = ctx.tlc_check("consensus", "MCDriver.tla", "Driver_fixed_p_%s.cfg" % tier, timeout=2400, coverage=thorough)
@@ -57,12 +90,14 @@ def run(ctx):
         nruns = 6 if thorough else 1
         depth = 200 * (120 if thorough else 45)
         jobs = [(cfg, shift, i) for cfg, shift in SIMS for i in range(nruns)]
+        jobs.append((LONG[0], "long", 0))
 
         def sim(job):
             cfg, shift, i = job
             return shift, ctx.tlc_simulate("consensus", "DriverMBT.tla", cfg, depth=depth,
-                                           seed=ctx.seed * 1000 + i, timeout=2400)
+                                           seed=ctx.seed * 1000 + i, timeout=2400, files=sim_files(cfg))
         by_shift = {shift: [] for _, shift in SIMS}
+        by_shift["long"] = []
         par = max(1, min(6, int(os.environ.get("VERIF_TLC_WORKERS", "16")) // 2))
         with concurrent.futures.ThreadPoolExecutor(max_workers=par) as pool:
             for shift, bs in pool.map(sim, jobs):
@@ -75,7 +110,53 @@ def run(ctx):
             ctx.absorb(res, ENGINE, "TestDriverReplay")
             total += len(behaviours)
             ctx.coverage["inputs_replayed_shift%d" % shift] = res.get("steps", 0)
+        # long-lived process (each behaviour pays ~255 scripted heights on the real driver first)
+        nlong = 40 if thorough else 6
+        payload = {"cfg": LONG[1], "me": 2, "behaviours": by_shift["long"][:nlong]}
+        res = ctx.run_engine(binary, "TestDriverReplay", payload, timeout=2400)
+        ctx.absorb(res, ENGINE, "TestDriverReplay")
+        total += len(payload["behaviours"])
+        ctx.coverage["long_lived_behaviours"] = len(payload["behaviours"])
         ctx.coverage["behaviours_generated"] = total
+
+    # ------------------------------------------------------------------ concurrency (code -> spec)
+    if not only or "conc" in only:
+        payload = {"cfg": dict(CFG, propShift=1), "me": 2, "runs": 6 if thorough else 1, "lives": 3,
+                   "perLife": 1500 if thorough else 700}
+        res = ctx.run_engine(binary, "TestDriverConcurrent", payload, timeout=1500)
+        ctx.absorb(res, ENGINE, "TestDriverConcurrent")
+        for run in range(payload["runs"]):
+            path = res.get("stats", {}).get("conc_trace_%d" % run)
+            if res.get("divergences") or not path:
+                continue
+            if not os.path.exists(path) or os.path.getsize(path) == 0:
+                raise vlib.Broken("concurrent engine wrote no trace for run %d" % run)
+            ok, tres = ctx.tlc_trace("consensus", "MCDriverTrace.tla", "Driver_trace.cfg", path, timeout=1500)
+            if ok:
+                ctx.traces_validated += 1
+                ctx.coverage["conc_trace_events"] = ctx.coverage.get("conc_trace_events", 0) + \
+                    int(res["stats"].get("conc_trace_lines_%d" % run, 0))
+                if run == 0:
+                    _selftest(ctx, path)
+            elif tres.get("violated") in ("deadlock", "FlushBeforeVisible", "ResumeHeight", "WalSane"):
+                ls = re.findall(r"/\\ l = (\d+)", tres["out"])
+                l = int(ls[-1]) if ls else 0
+                with open(path) as f:
+                    lines = f.read().splitlines()
+                ev = json.loads(lines[l - 1]) if 0 < l <= len(lines) else {}
+                key = "driver-conc:%s:%s/%s" % (tres["violated"], ev.get("e"), (ev.get("a") or {}).get("a"))
+                what = ("TLC rejects the effect stream of the real driver under concurrent inputs and real timers at "
+                        "line %d (%s): %s" % (l, json.dumps(ev), "it is not what Driver.tla performs there"
+                                              if tres["violated"] == "deadlock" else "invariant violated"))
+                ctx.report(key, what, {"property": "C13", "engine": ENGINE, "test": "TestDriverConcurrent",
+                                       "seed": ctx.seed, "input": dict(payload, onlyRun=run),
+                                       "divergence": {"line": l, "event": ev, "context": lines[max(0, l - 6):l + 2]}})
+            else:
+                raise vlib.Broken("trace validation machinery failed:\n%s" % tres["out"][-3000:])
+
+    # a `known` finding that did not show up is only worth a note
+    if h6_known and (not only or "replay" in only) and not any(h["key"] == H6_KEY for h in ctx.known_hits):
+        print("NOTE: property=C13 known finding %s did not reproduce in this run" % H6_KEY, flush=True)
 
     ctx.assumptions += [
         "a crash stops the process between two calls into its environment (WAL store, broadcasters, commit "
